@@ -214,6 +214,9 @@ def tu_iterate(vm, it):
 
 
 def tu_call(vm, fn, args, kwargs, node):
+    if isinstance(fn, Closure) and fn.qualname.endswith('_value_alignment'):
+        # the alignment of a member's own type: by its contract an opaque function of the member (see gen_member)
+        return SInt(VALIGN(args[0].t))
     if isinstance(fn, Closure) and fn.qualname.endswith('_indent'):
         return SStr(INDENT(vm.as_str(args[0]), vm.as_int(args[1])))
     if isinstance(fn, OpaqueFn) and fn.attr == 'generate_padding':
